@@ -303,7 +303,10 @@ func (c *SpecCtx) tr(e SExpr) Term {
 			} else {
 				saved[qv.Name] = nil
 			}
-			nm := "q_" + qv.Name
+			// unique per quantifier instance: spec functions are inlined, and an argument mentioning a bound
+			// variable of the caller must not be captured by a like-named bound variable of the body
+			c.vc.nquant++
+			nm := fmt.Sprintf("q_%s_%d", qv.Name, c.vc.nquant)
 			c.vars[qv.Name] = Term{nm, s}
 			decl = append(decl, "("+nm+" "+s.Name+")")
 			if s.Kind == KInt && s.Bits != 0 {
